@@ -15,3 +15,7 @@ impl<H> BuildHasherDefault<H> {
     #[verifier::external_body]
     pub fn default() -> (r: Self) { unimplemented!() }
 }
+// murmur3_32 over the native-endian bytes of a u64 with a fixed seed: a pure function of the value
+pub uninterp spec fn murmur3_u64_spec(v: u64, seed: u32) -> u32;
+#[verifier::external_body]
+pub fn vx_murmur3_32_u64(v: u64, seed: u32) -> (r: u32) ensures r == murmur3_u64_spec(v, seed) { unimplemented!() }
